@@ -122,8 +122,13 @@ def execute(job, pop):
     timer = threading.Timer(0.5, job.request_stop)
     timer.daemon = True
     timer.start()
+    # `pause` reads the keyboard: answer "run without stopping again" and swallow its prompt
+    machine_mod.getch = lambda: '!'
+    import contextlib
+    import io
     try:
-        job.execute()
+        with contextlib.redirect_stdout(io.StringIO()):
+            job.execute()
     except BaseException as ex:  # noqa
         return 'escaped', '{}: {}'.format(type(ex).__name__, str(ex)[:100])
     finally:
@@ -213,7 +218,7 @@ RULES = [
 
 
 def main():
-    chk = Check('C06')
+    chk = Check('C06', extra_modules=['Bardolph.Proofs.Closed', 'Bardolph.Proofs.ClosedGen', 'Bardolph.Proofs.ClosedSplit', 'Bardolph.Proofs.ClosedLoad'])
     chk.lean_phase(sections=set())
     env.configure_basic()
     rng = chk.rng
@@ -277,6 +282,19 @@ def main():
             chk.violation('exception-escapes-the-vm', ex_detail, {'text': text})
         elif ex_outcome == 'aborted':
             kind = classify_fault(ex_detail)
+            if 'pushing None' in ex_detail:
+                # reading a variable (or a loop variable) that was never assigned at run time is
+                # the script's own error; pushing None for any other operand is an internal fault
+                m = re.search(r'at instruction (\d+)', ex_detail)
+                try:
+                    inst = job._machine._program[int(m.group(1))]
+                    from bardolph.vm.vm_codes import OpCode
+                    if inst.op_code is OpCode.PUSH and isinstance(inst.param0, str):
+                        kind = 'data'
+                        ex_detail = ex_detail.replace('pushing None onto eval stack',
+                                                      'read of unassigned variable')
+                except Exception:  # noqa
+                    pass
             if kind == 'data':
                 key = re.sub(r'at instruction \d+', '', ex_detail)[24:70]
                 stats['data_faults'][key] = stats['data_faults'].get(key, 0) + 1
@@ -301,7 +319,8 @@ def main():
         'that left a program, or an accepted text whose execution on three simulated lights ends in '
         'an internal VM fault (data errors such as division by zero are allowed and counted); '
         'non-trivial = distinct input with a proper outcome')
-    chk.assumptions += ['run-time errors of the script\'s own data (division by zero, arithmetic on '
+    chk.assumptions += ['the keyboard read of `pause` is answered by a stub',
+                        'run-time errors of the script\'s own data (division by zero, arithmetic on '
                         'a string, a format spec the value does not support) are not internal faults',
                         'accepted scripts are executed for at most 0.5 s (then stopped)']
     if chk.thorough:
